@@ -10,9 +10,7 @@ package main
 
 import (
 	"fmt"
-	"math/big"
 	"math/rand"
-	"sort"
 	"strings"
 )
 
@@ -20,7 +18,7 @@ func init() { register("C19", runC19) }
 
 type c19Case struct {
 	Name  string    // generator family
-	Cfg   *aCfg     // settings (both syntaxes) …
+	Cfg   *c19ACfg  // settings (both syntaxes) …
 	Toks  []c19Tok  // … or a hand-shaped Caddyfile tree (Caddyfile only)
 	JSON  string    // … or a hand-shaped JSON text (JSON only, implementation-side oracle only)
 	Env   *c19Env   // what exists on disk for this case
@@ -41,9 +39,9 @@ func runC19(r *Run) {
 	cases = append(cases, c19Sweeps(fx)...)
 	cases = append(cases, c19TreeShapes(fx)...)
 	cases = append(cases, c19JSONShapes(fx)...)
-	nRandom, nReal := 500, 40
+	nRandom, nReal := 4000, 160
 	if r.Thorough() {
-		nRandom, nReal = 12000, 600
+		nRandom, nReal = 60000, 1440
 		cases = append(cases, c19Pairs(fx)...)
 	}
 	rng := rand.New(rand.NewSource(r.Seed*7919 + 19))
@@ -66,6 +64,7 @@ func runC19(r *Run) {
 		for _, o := range res.Ops {
 			r.Op(o[0], o[1])
 			r.Count("outcome:" + strings.SplitN(o[1], " ", 2)[0])
+			r.Count("outcome-by-family:" + strings.SplitN(cs.Name, ":", 2)[0] + ":" + strings.SplitN(o[1], " ", 2)[0])
 		}
 		r.Eval(res.Key, res.Nontrivial)
 		if i%97 == 0 {
@@ -79,28 +78,28 @@ func runC19(r *Run) {
 
 // ---- settings, token trees -------------------------------------------------------------------
 
-type aCdp struct {
+type c19ACdp struct {
 	Fetch  *string
 	Strict *bool
 }
-type aCrl struct {
+type c19ACrl struct {
 	WorkDir, Storage, Interval, Sig *string
 	Urls, Files, Signers            []string
-	Cdp                             *aCdp
+	Cdp                             *c19ACdp
 }
-type aOcsp struct {
+type c19AOcsp struct {
 	Cache      *string
 	Responders []string
 	Strict     *bool
 }
-type aCfg struct {
+type c19ACfg struct {
 	Mode *string
-	Crl  *aCrl
-	Ocsp *aOcsp
+	Crl  *c19ACrl
+	Ocsp *c19AOcsp
 }
 
-func sp(s string) *string { return &s }
-func bp(b bool) *bool     { return &b }
+func c19Sp(s string) *string { return &s }
+func c19Bp(b bool) *bool     { return &b }
 
 type c19Tok struct {
 	Key   string
@@ -108,15 +107,15 @@ type c19Tok struct {
 	Block *[]c19Tok
 }
 
-func line(k, v string) c19Tok { return c19Tok{Key: k, Args: []string{v}} }
-func blockTok(k string, b []c19Tok) c19Tok {
+func c19Line(k, v string) c19Tok { return c19Tok{Key: k, Args: []string{v}} }
+func c19BlockTok(k string, b []c19Tok) c19Tok {
 	if b == nil {
 		b = []c19Tok{}
 	}
 	return c19Tok{Key: k, Block: &b}
 }
 
-func (c *aCfg) toks(spell [2]string) []c19Tok {
+func (c *c19ACfg) toks(spell [2]string) []c19Tok {
 	bs := func(b bool) string {
 		if b {
 			return spell[0]
@@ -125,13 +124,13 @@ func (c *aCfg) toks(spell [2]string) []c19Tok {
 	}
 	var top []c19Tok
 	if c.Mode != nil {
-		top = append(top, line("mode", *c.Mode))
+		top = append(top, c19Line("mode", *c.Mode))
 	}
 	if c.Crl != nil {
 		var b []c19Tok
 		add := func(k string, v *string) {
 			if v != nil {
-				b = append(b, line(k, *v))
+				b = append(b, c19Line(k, *v))
 			}
 		}
 		add("work_dir", c.Crl.WorkDir)
@@ -139,49 +138,49 @@ func (c *aCfg) toks(spell [2]string) []c19Tok {
 		add("update_interval", c.Crl.Interval)
 		add("signature_validation_mode", c.Crl.Sig)
 		for _, u := range c.Crl.Urls {
-			b = append(b, line("crl_url", u))
+			b = append(b, c19Line("crl_url", u))
 		}
 		for _, u := range c.Crl.Files {
-			b = append(b, line("crl_file", u))
+			b = append(b, c19Line("crl_file", u))
 		}
 		for _, u := range c.Crl.Signers {
-			b = append(b, line("trusted_signature_cert_file", u))
+			b = append(b, c19Line("trusted_signature_cert_file", u))
 		}
 		if c.Crl.Cdp != nil {
 			var d []c19Tok
 			if c.Crl.Cdp.Fetch != nil {
-				d = append(d, line("crl_fetch_mode", *c.Crl.Cdp.Fetch))
+				d = append(d, c19Line("crl_fetch_mode", *c.Crl.Cdp.Fetch))
 			}
 			if c.Crl.Cdp.Strict != nil {
-				d = append(d, line("crl_cdp_strict", bs(*c.Crl.Cdp.Strict)))
+				d = append(d, c19Line("crl_cdp_strict", bs(*c.Crl.Cdp.Strict)))
 			}
-			b = append(b, blockTok("cdp_config", d))
+			b = append(b, c19BlockTok("cdp_config", d))
 		}
-		top = append(top, blockTok("crl_config", b))
+		top = append(top, c19BlockTok("crl_config", b))
 	}
 	if c.Ocsp != nil {
 		var b []c19Tok
 		if c.Ocsp.Cache != nil {
-			b = append(b, line("default_cache_duration", *c.Ocsp.Cache))
+			b = append(b, c19Line("default_cache_duration", *c.Ocsp.Cache))
 		}
 		for _, u := range c.Ocsp.Responders {
-			b = append(b, line("trusted_responder_cert_file", u))
+			b = append(b, c19Line("trusted_responder_cert_file", u))
 		}
 		if c.Ocsp.Strict != nil {
-			b = append(b, line("ocsp_aia_strict", bs(*c.Ocsp.Strict)))
+			b = append(b, c19Line("ocsp_aia_strict", bs(*c.Ocsp.Strict)))
 		}
-		top = append(top, blockTok("ocsp_config", b))
+		top = append(top, c19BlockTok("ocsp_config", b))
 	}
 	return top
 }
 
-// shuffleToks permutes the lines of every block, keeping the relative order of lines with the same key.
-func shuffleToks(ts []c19Tok, rng *rand.Rand) []c19Tok {
+// c19ShuffleToks permutes the lines of every block, keeping the relative order of lines with the same key.
+func c19ShuffleToks(ts []c19Tok, rng *rand.Rand) []c19Tok {
 	byKey := map[string][]c19Tok{}
 	keys := make([]string, len(ts))
 	for i, t := range ts {
 		if t.Block != nil {
-			nb := shuffleToks(*t.Block, rng)
+			nb := c19ShuffleToks(*t.Block, rng)
 			t.Block = &nb
 		}
 		byKey[t.Key] = append(byKey[t.Key], t)
@@ -196,7 +195,7 @@ func shuffleToks(ts []c19Tok, rng *rand.Rand) []c19Tok {
 	return out
 }
 
-func quoteTok(s string) string {
+func c19QuoteTok(s string) string {
 	plain := s != ""
 	for _, ch := range s {
 		if !(ch >= 'a' && ch <= 'z' || ch >= 'A' && ch <= 'Z' || ch >= '0' && ch <= '9' || strings.ContainsRune("_./:-+", ch)) {
@@ -209,30 +208,30 @@ func quoteTok(s string) string {
 	return `"` + strings.ReplaceAll(s, `"`, `\"`) + `"`
 }
 
-func renderToks(ts []c19Tok, indent string, b *strings.Builder) {
+func c19RenderToks(ts []c19Tok, indent string, b *strings.Builder) {
 	for _, t := range ts {
-		b.WriteString(indent + quoteTok(t.Key))
+		b.WriteString(indent + c19QuoteTok(t.Key))
 		for _, a := range t.Args {
-			b.WriteString(" " + quoteTok(a))
+			b.WriteString(" " + c19QuoteTok(a))
 		}
 		if t.Block != nil {
 			b.WriteString(" {\n")
-			renderToks(*t.Block, indent+"  ", b)
+			c19RenderToks(*t.Block, indent+"  ", b)
 			b.WriteString(indent + "}")
 		}
 		b.WriteString("\n")
 	}
 }
 
-func caddyText(ts []c19Tok) string {
+func c19CaddyText(ts []c19Tok) string {
 	var b strings.Builder
 	b.WriteString("revocation {\n")
-	renderToks(ts, "  ", &b)
+	c19RenderToks(ts, "  ", &b)
 	b.WriteString("}\n")
 	return b.String()
 }
 
-func encToks(ts []c19Tok, b *strings.Builder) {
+func c19EncToks(ts []c19Tok, b *strings.Builder) {
 	fmt.Fprintf(b, " %d", len(ts))
 	for _, t := range ts {
 		fmt.Fprintf(b, " e %s %d", hexs([]byte(t.Key)), len(t.Args))
@@ -243,12 +242,12 @@ func encToks(ts []c19Tok, b *strings.Builder) {
 			b.WriteString(" n")
 		} else {
 			b.WriteString(" b")
-			encToks(*t.Block, b)
+			c19EncToks(*t.Block, b)
 		}
 	}
 }
 
-func (c *aCfg) json() string {
+func (c *c19ACfg) json() string {
 	m := map[string]interface{}{}
 	if c.Mode != nil {
 		m["mode"] = *c.Mode
@@ -298,7 +297,7 @@ func (c *aCfg) json() string {
 		}
 		m["ocsp_config"] = o
 	}
-	return string(mustJSON(m))
+	return string(c19MustJSON(m))
 }
 
 // ---- generators ------------------------------------------------------------------------------
@@ -318,15 +317,15 @@ var (
 )
 
 // base: the smallest valid configuration for a CRL-enabled mode.
-func c19Base(e *c19Env) *aCfg { return &aCfg{Crl: &aCrl{WorkDir: sp(e.WorkDir)}} }
+func c19Base(e *c19Env) *c19ACfg { return &c19ACfg{Crl: &c19ACrl{WorkDir: c19Sp(e.WorkDir)}} }
 
-func pick(rng *rand.Rand, l []string) string { return l[rng.Intn(len(l))] }
+func c19Pick(rng *rand.Rand, l []string) string { return l[rng.Intn(len(l))] }
 
 // c19Sweeps: every option alone over valid, empty, invalid values (both syntaxes), in a CRL-enabled and a CRL-disabled mode.
 func c19Sweeps(fx *c19Fixture) []c19Case {
 	var out []c19Case
-	add := func(name string, f func(c *aCfg, e *c19Env)) {
-		for _, mode := range []*string{nil, sp("ocsp_only")} {
+	add := func(name string, f func(c *c19ACfg, e *c19Env)) {
+		for _, mode := range []*string{nil, c19Sp("ocsp_only")} {
 			e := fx.newEnv()
 			c := c19Base(e)
 			c.Mode = mode
@@ -335,63 +334,63 @@ func c19Sweeps(fx *c19Fixture) []c19Case {
 		}
 	}
 	// nothing but the work dir; nothing at all; empty blocks
-	add("minimal", func(c *aCfg, e *c19Env) {})
-	add("empty", func(c *aCfg, e *c19Env) { c.Crl = nil })
-	add("empty-blocks", func(c *aCfg, e *c19Env) { c.Crl.Cdp = &aCdp{}; c.Ocsp = &aOcsp{} })
-	add("crl-block-without-workdir", func(c *aCfg, e *c19Env) { c.Crl.WorkDir = nil })
+	add("minimal", func(c *c19ACfg, e *c19Env) {})
+	add("empty", func(c *c19ACfg, e *c19Env) { c.Crl = nil })
+	add("empty-blocks", func(c *c19ACfg, e *c19Env) { c.Crl.Cdp = &c19ACdp{}; c.Ocsp = &c19AOcsp{} })
+	add("crl-block-without-workdir", func(c *c19ACfg, e *c19Env) { c.Crl.WorkDir = nil })
 	for _, v := range append(append([]string{""}, c19Modes...), c19BadEnums...) {
 		v := v
 		e := fx.newEnv()
 		c := c19Base(e)
-		c.Mode = sp(v)
+		c.Mode = c19Sp(v)
 		out = append(out, c19Case{Name: "sweep:mode", Cfg: c, Env: e, Spell: [2]string{"true", "false"}})
 	}
 	for _, v := range append(append([]string{""}, c19Storages...), c19BadEnums...) {
 		v := v
-		add("storage_type", func(c *aCfg, e *c19Env) { c.Crl.Storage = sp(v) })
+		add("storage_type", func(c *c19ACfg, e *c19Env) { c.Crl.Storage = c19Sp(v) })
 	}
 	for _, v := range append(append([]string{""}, c19Sigs...), c19BadEnums...) {
 		v := v
-		add("signature_validation_mode", func(c *aCfg, e *c19Env) { c.Crl.Sig = sp(v) })
+		add("signature_validation_mode", func(c *c19ACfg, e *c19Env) { c.Crl.Sig = c19Sp(v) })
 	}
 	for _, v := range append(append([]string{""}, c19Fetches...), c19BadEnums...) {
 		v := v
-		add("crl_fetch_mode", func(c *aCfg, e *c19Env) { c.Crl.Cdp = &aCdp{Fetch: sp(v)} })
+		add("crl_fetch_mode", func(c *c19ACfg, e *c19Env) { c.Crl.Cdp = &c19ACdp{Fetch: c19Sp(v)} })
 	}
 	for _, v := range append(append(append([]string{""}, c19Durations...), c19BadDurs...), c19OddDurs...) {
 		v := v
-		add("update_interval", func(c *aCfg, e *c19Env) { c.Crl.Interval = sp(v) })
-		add("default_cache_duration", func(c *aCfg, e *c19Env) { c.Ocsp = &aOcsp{Cache: sp(v)} })
+		add("update_interval", func(c *c19ACfg, e *c19Env) { c.Crl.Interval = c19Sp(v) })
+		add("default_cache_duration", func(c *c19ACfg, e *c19Env) { c.Ocsp = &c19AOcsp{Cache: c19Sp(v)} })
 	}
 	for _, b := range []bool{true, false} {
 		b := b
-		add("crl_cdp_strict", func(c *aCfg, e *c19Env) { c.Crl.Cdp = &aCdp{Strict: bp(b)} })
-		add("ocsp_aia_strict", func(c *aCfg, e *c19Env) { c.Ocsp = &aOcsp{Strict: bp(b)} })
+		add("crl_cdp_strict", func(c *c19ACfg, e *c19Env) { c.Crl.Cdp = &c19ACdp{Strict: c19Bp(b)} })
+		add("ocsp_aia_strict", func(c *c19ACfg, e *c19Env) { c.Ocsp = &c19AOcsp{Strict: c19Bp(b)} })
 	}
 	// work_dir: existing dir, missing, a file, empty string
 	for _, k := range []string{"missing", "file", "emptystring"} {
 		k := k
-		add("work_dir:"+k, func(c *aCfg, e *c19Env) {
+		add("work_dir:"+k, func(c *c19ACfg, e *c19Env) {
 			switch k {
 			case "missing":
-				c.Crl.WorkDir = sp(e.WorkDir + "/does-not-exist")
+				c.Crl.WorkDir = c19Sp(e.WorkDir + "/does-not-exist")
 			case "file":
-				c.Crl.WorkDir = sp(e.AFile)
+				c.Crl.WorkDir = c19Sp(e.AFile)
 			case "emptystring":
-				c.Crl.WorkDir = sp("")
+				c.Crl.WorkDir = c19Sp("")
 			}
 		})
 	}
 	// certificate lists 0..3, with a missing / non-certificate file
 	for n := 0; n <= 3; n++ {
 		n := n
-		add(fmt.Sprintf("trusted_signature_certs_files:%d", n), func(c *aCfg, e *c19Env) { c.Crl.Signers = fx.certFiles(n) })
-		add(fmt.Sprintf("trusted_responder_certs_files:%d", n), func(c *aCfg, e *c19Env) { c.Ocsp = &aOcsp{Responders: fx.certFiles(n)} })
+		add(fmt.Sprintf("trusted_signature_certs_files:%d", n), func(c *c19ACfg, e *c19Env) { c.Crl.Signers = fx.certFiles(n) })
+		add(fmt.Sprintf("trusted_responder_certs_files:%d", n), func(c *c19ACfg, e *c19Env) { c.Ocsp = &c19AOcsp{Responders: fx.certFiles(n)} })
 	}
-	add("trusted_signature_certs_files:missing", func(c *aCfg, e *c19Env) { c.Crl.Signers = []string{fx.CertFiles[0], fx.MissingFile} })
-	add("trusted_signature_certs_files:garbage", func(c *aCfg, e *c19Env) { c.Crl.Signers = []string{fx.GarbageFile} })
-	add("trusted_responder_certs_files:missing", func(c *aCfg, e *c19Env) { c.Ocsp = &aOcsp{Responders: []string{fx.MissingFile}} })
-	add("trusted_responder_certs_files:garbage", func(c *aCfg, e *c19Env) { c.Ocsp = &aOcsp{Responders: []string{fx.CertFiles[1], fx.GarbageFile}} })
+	add("trusted_signature_certs_files:missing", func(c *c19ACfg, e *c19Env) { c.Crl.Signers = []string{fx.CertFiles[0], fx.MissingFile} })
+	add("trusted_signature_certs_files:garbage", func(c *c19ACfg, e *c19Env) { c.Crl.Signers = []string{fx.GarbageFile} })
+	add("trusted_responder_certs_files:missing", func(c *c19ACfg, e *c19Env) { c.Ocsp = &c19AOcsp{Responders: []string{fx.MissingFile}} })
+	add("trusted_responder_certs_files:garbage", func(c *c19ACfg, e *c19Env) { c.Ocsp = &c19AOcsp{Responders: []string{fx.CertFiles[1], fx.GarbageFile}} })
 	// every bool spelling (Caddyfile rendering only differs; JSON carries the bool)
 	for i := range c19TrueSp {
 		i := i
@@ -399,8 +398,8 @@ func c19Sweeps(fx *c19Fixture) []c19Case {
 			b := b
 			e := fx.newEnv()
 			c := c19Base(e)
-			c.Crl.Cdp = &aCdp{Strict: bp(b)}
-			c.Ocsp = &aOcsp{Strict: bp(b)}
+			c.Crl.Cdp = &c19ACdp{Strict: c19Bp(b)}
+			c.Ocsp = &c19AOcsp{Strict: c19Bp(b)}
 			out = append(out, c19Case{Name: "sweep:bool-spelling", Cfg: c, Env: e, Spell: [2]string{c19TrueSp[i], c19FalseSp[i]}})
 		}
 	}
@@ -409,38 +408,38 @@ func c19Sweeps(fx *c19Fixture) []c19Case {
 
 // c19Pairs (thorough): every pair of (option, value) from small valid pools.
 func c19Pairs(fx *c19Fixture) []c19Case {
-	type setter func(c *aCfg)
+	type setter func(c *c19ACfg)
 	var opts [][]setter
-	strs := func(vals []string, f func(c *aCfg, v string)) []setter {
+	strs := func(vals []string, f func(c *c19ACfg, v string)) []setter {
 		var s []setter
 		for _, v := range vals {
 			v := v
-			s = append(s, func(c *aCfg) { f(c, v) })
+			s = append(s, func(c *c19ACfg) { f(c, v) })
 		}
 		return s
 	}
-	cdp := func(c *aCfg) *aCdp {
+	cdp := func(c *c19ACfg) *c19ACdp {
 		if c.Crl.Cdp == nil {
-			c.Crl.Cdp = &aCdp{}
+			c.Crl.Cdp = &c19ACdp{}
 		}
 		return c.Crl.Cdp
 	}
-	oc := func(c *aCfg) *aOcsp {
+	oc := func(c *c19ACfg) *c19AOcsp {
 		if c.Ocsp == nil {
-			c.Ocsp = &aOcsp{}
+			c.Ocsp = &c19AOcsp{}
 		}
 		return c.Ocsp
 	}
-	opts = append(opts, strs(c19Modes, func(c *aCfg, v string) { c.Mode = sp(v) }))
-	opts = append(opts, strs(c19Storages, func(c *aCfg, v string) { c.Crl.Storage = sp(v) }))
-	opts = append(opts, strs(c19Sigs, func(c *aCfg, v string) { c.Crl.Sig = sp(v) }))
-	opts = append(opts, strs(c19Fetches, func(c *aCfg, v string) { cdp(c).Fetch = sp(v) }))
-	opts = append(opts, strs([]string{"10m", "2h"}, func(c *aCfg, v string) { c.Crl.Interval = sp(v) }))
-	opts = append(opts, strs([]string{"0s", "5m"}, func(c *aCfg, v string) { oc(c).Cache = sp(v) }))
-	opts = append(opts, strs([]string{"t", "f"}, func(c *aCfg, v string) { cdp(c).Strict = bp(v == "t") }))
-	opts = append(opts, strs([]string{"t", "f"}, func(c *aCfg, v string) { oc(c).Strict = bp(v == "t") }))
-	opts = append(opts, strs([]string{"1", "2"}, func(c *aCfg, v string) { c.Crl.Signers = fx.certFiles(len(v) * int(v[0]-'0')) }))
-	opts = append(opts, strs([]string{"1", "3"}, func(c *aCfg, v string) { oc(c).Responders = fx.certFiles(int(v[0] - '0')) }))
+	opts = append(opts, strs(c19Modes, func(c *c19ACfg, v string) { c.Mode = c19Sp(v) }))
+	opts = append(opts, strs(c19Storages, func(c *c19ACfg, v string) { c.Crl.Storage = c19Sp(v) }))
+	opts = append(opts, strs(c19Sigs, func(c *c19ACfg, v string) { c.Crl.Sig = c19Sp(v) }))
+	opts = append(opts, strs(c19Fetches, func(c *c19ACfg, v string) { cdp(c).Fetch = c19Sp(v) }))
+	opts = append(opts, strs([]string{"10m", "2h"}, func(c *c19ACfg, v string) { c.Crl.Interval = c19Sp(v) }))
+	opts = append(opts, strs([]string{"0s", "5m"}, func(c *c19ACfg, v string) { oc(c).Cache = c19Sp(v) }))
+	opts = append(opts, strs([]string{"t", "f"}, func(c *c19ACfg, v string) { cdp(c).Strict = c19Bp(v == "t") }))
+	opts = append(opts, strs([]string{"t", "f"}, func(c *c19ACfg, v string) { oc(c).Strict = c19Bp(v == "t") }))
+	opts = append(opts, strs([]string{"1", "2"}, func(c *c19ACfg, v string) { c.Crl.Signers = fx.certFiles(len(v) * int(v[0]-'0')) }))
+	opts = append(opts, strs([]string{"1", "3"}, func(c *c19ACfg, v string) { oc(c).Responders = fx.certFiles(int(v[0] - '0')) }))
 	var out []c19Case
 	for i := 0; i < len(opts); i++ {
 		for j := i + 1; j < len(opts); j++ {
@@ -460,26 +459,26 @@ func c19Pairs(fx *c19Fixture) []c19Case {
 
 func c19Random(fx *c19Fixture, rng *rand.Rand) c19Case {
 	e := fx.newEnv()
-	c := &aCfg{}
+	c := &c19ACfg{}
 	coin := func(p float64) bool { return rng.Float64() < p }
 	val := func(valid, bad []string) *string {
 		switch {
 		case coin(0.08):
-			return sp(pick(rng, bad))
+			return c19Sp(c19Pick(rng, bad))
 		case coin(0.05):
-			return sp("")
+			return c19Sp("")
 		}
-		return sp(pick(rng, valid))
+		return c19Sp(c19Pick(rng, valid))
 	}
 	if coin(0.6) {
 		c.Mode = val(c19Modes, c19BadEnums)
 	}
 	if coin(0.9) {
-		c.Crl = &aCrl{}
+		c.Crl = &c19ACrl{}
 		if coin(0.93) {
-			c.Crl.WorkDir = sp(e.WorkDir)
+			c.Crl.WorkDir = c19Sp(e.WorkDir)
 			if coin(0.04) {
-				c.Crl.WorkDir = sp(e.AFile)
+				c.Crl.WorkDir = c19Sp(e.AFile)
 			}
 		}
 		if coin(0.5) {
@@ -498,17 +497,17 @@ func c19Random(fx *c19Fixture, rng *rand.Rand) c19Case {
 			}
 		}
 		if coin(0.5) {
-			c.Crl.Cdp = &aCdp{}
+			c.Crl.Cdp = &c19ACdp{}
 			if coin(0.6) {
 				c.Crl.Cdp.Fetch = val(c19Fetches, c19BadEnums)
 			}
 			if coin(0.6) {
-				c.Crl.Cdp.Strict = bp(coin(0.5))
+				c.Crl.Cdp.Strict = c19Bp(coin(0.5))
 			}
 		}
 	}
 	if coin(0.6) {
-		c.Ocsp = &aOcsp{}
+		c.Ocsp = &c19AOcsp{}
 		if coin(0.5) {
 			c.Ocsp.Cache = val(append(c19Durations, "0s"), c19BadDurs)
 		}
@@ -519,7 +518,7 @@ func c19Random(fx *c19Fixture, rng *rand.Rand) c19Case {
 			}
 		}
 		if coin(0.6) {
-			c.Ocsp.Strict = bp(coin(0.5))
+			c.Ocsp.Strict = c19Bp(coin(0.5))
 		}
 	}
 	i := rng.Intn(len(c19TrueSp))
@@ -538,41 +537,41 @@ func c19TreeShapes(fx *c19Fixture) []c19Case {
 		e := fx.newEnv()
 		out = append(out, c19Case{Name: "tree:" + name, Toks: f(e), Env: e, Expect: expect, Why: why})
 	}
-	wd := func(e *c19Env) c19Tok { return line("work_dir", e.WorkDir) }
-	crl := func(ts ...c19Tok) c19Tok { return blockTok("crl_config", ts) }
+	wd := func(e *c19Env) c19Tok { return c19Line("work_dir", e.WorkDir) }
+	crl := func(ts ...c19Tok) c19Tok { return c19BlockTok("crl_config", ts) }
 	// misspelt keys, every level, with and without argument / block
 	for _, k := range []string{"mod", "modes", "crl_configs", "ocsp", "MODE", "work_dir", "crl_cdp_strict", "default_cache_duration", ""} {
 		k := k
-		add("unknown-key:top", "reject", "unknown-key level=top", func(e *c19Env) []c19Tok { return []c19Tok{crl(wd(e)), line(k, "x")} })
+		add("unknown-key:top", "reject", "unknown-key level=top", func(e *c19Env) []c19Tok { return []c19Tok{crl(wd(e)), c19Line(k, "x")} })
 		add("unknown-key:top-first", "reject", "unknown-key level=top", func(e *c19Env) []c19Tok { return []c19Tok{{Key: k}, crl(wd(e))} })
 		add("unknown-key:top-block", "reject", "unknown-key level=top", func(e *c19Env) []c19Tok {
-			return []c19Tok{blockTok(k, []c19Tok{line("mode", "crl_only")}), crl(wd(e))}
+			return []c19Tok{c19BlockTok(k, []c19Tok{c19Line("mode", "crl_only")}), crl(wd(e))}
 		})
 	}
 	for _, k := range []string{"workdir", "work-dir", "crl_urls", "crl_files", "trusted_signature_certs_files", "storage", "mode", "crl_fetch_mode", "crl_cdp_strict", "cdp", "WORK_DIR"} {
 		k := k
-		add("unknown-key:crl", "reject", "unknown-key level=crl_config", func(e *c19Env) []c19Tok { return []c19Tok{crl(wd(e), line(k, "x"))} })
+		add("unknown-key:crl", "reject", "unknown-key level=crl_config", func(e *c19Env) []c19Tok { return []c19Tok{crl(wd(e), c19Line(k, "x"))} })
 		add("unknown-key:crl-first", "reject", "unknown-key level=crl_config", func(e *c19Env) []c19Tok { return []c19Tok{crl(c19Tok{Key: k}, wd(e))} })
 		add("unknown-key:crl-block", "reject", "unknown-key level=crl_config", func(e *c19Env) []c19Tok {
-			return []c19Tok{crl(wd(e), blockTok(k, []c19Tok{line("crl_cdp_strict", "true")}))}
+			return []c19Tok{crl(wd(e), c19BlockTok(k, []c19Tok{c19Line("crl_cdp_strict", "true")}))}
 		})
 	}
 	for _, k := range []string{"crl_fetchmode", "fetch_mode", "crl_cdp_strikt", "strict", "work_dir", "ocsp_aia_strict", "CRL_CDP_STRICT"} {
 		k := k
 		add("unknown-key:cdp", "reject", "unknown-key level=cdp_config", func(e *c19Env) []c19Tok {
-			return []c19Tok{crl(wd(e), blockTok("cdp_config", []c19Tok{line("crl_cdp_strict", "true"), line(k, "true")}))}
+			return []c19Tok{crl(wd(e), c19BlockTok("cdp_config", []c19Tok{c19Line("crl_cdp_strict", "true"), c19Line(k, "true")}))}
 		})
 		add("unknown-key:cdp-only", "reject", "unknown-key level=cdp_config", func(e *c19Env) []c19Tok {
-			return []c19Tok{crl(wd(e), blockTok("cdp_config", []c19Tok{{Key: k}}))}
+			return []c19Tok{crl(wd(e), c19BlockTok("cdp_config", []c19Tok{{Key: k}}))}
 		})
 	}
 	for _, k := range []string{"cache_duration", "default_cache_durations", "trusted_responder_certs_files", "ocsp_aia_strikt", "aia_strict", "crl_cdp_strict", "OCSP_AIA_STRICT"} {
 		k := k
 		add("unknown-key:ocsp", "reject", "unknown-key level=ocsp_config", func(e *c19Env) []c19Tok {
-			return []c19Tok{crl(wd(e)), blockTok("ocsp_config", []c19Tok{line("ocsp_aia_strict", "true"), line(k, "true")})}
+			return []c19Tok{crl(wd(e)), c19BlockTok("ocsp_config", []c19Tok{c19Line("ocsp_aia_strict", "true"), c19Line(k, "true")})}
 		})
 		add("unknown-key:ocsp-only", "reject", "unknown-key level=ocsp_config", func(e *c19Env) []c19Tok {
-			return []c19Tok{crl(wd(e)), blockTok("ocsp_config", []c19Tok{{Key: k}})}
+			return []c19Tok{crl(wd(e)), c19BlockTok("ocsp_config", []c19Tok{{Key: k}})}
 		})
 	}
 	// missing arguments
@@ -584,13 +583,13 @@ func c19TreeShapes(fx *c19Fixture) []c19Case {
 	for _, k := range []string{"crl_fetch_mode", "crl_cdp_strict"} {
 		k := k
 		add("missing-arg:cdp", "reject", "missing-argument", func(e *c19Env) []c19Tok {
-			return []c19Tok{crl(wd(e), blockTok("cdp_config", []c19Tok{{Key: k}}))}
+			return []c19Tok{crl(wd(e), c19BlockTok("cdp_config", []c19Tok{{Key: k}}))}
 		})
 	}
 	for _, k := range []string{"default_cache_duration", "trusted_responder_cert_file", "ocsp_aia_strict"} {
 		k := k
 		add("missing-arg:ocsp", "reject", "missing-argument", func(e *c19Env) []c19Tok {
-			return []c19Tok{crl(wd(e)), blockTok("ocsp_config", []c19Tok{{Key: k}})}
+			return []c19Tok{crl(wd(e)), c19BlockTok("ocsp_config", []c19Tok{{Key: k}})}
 		})
 	}
 	// argument followed by a block opening
@@ -598,35 +597,35 @@ func c19TreeShapes(fx *c19Fixture) []c19Case {
 		return []c19Tok{crl(c19Tok{Key: "work_dir", Args: []string{e.WorkDir}, Block: &[]c19Tok{}})}
 	})
 	add("missing-arg-then-block", "reject", "missing-argument", func(e *c19Env) []c19Tok {
-		return []c19Tok{crl(wd(e), c19Tok{Key: "storage_type", Block: &[]c19Tok{line("x", "y")}})}
+		return []c19Tok{crl(wd(e), c19Tok{Key: "storage_type", Block: &[]c19Tok{c19Line("x", "y")}})}
 	})
 	// bool spellings: the 12 of strconv.ParseBool accepted with their value, everything else rejected
 	for i, s := range append(append([]string{}, c19TrueSp...), c19FalseSp...) {
 		s, want := s, i < len(c19TrueSp)
 		add("bool:valid", "accept", fmt.Sprintf("bool-spelling value=%v", want), func(e *c19Env) []c19Tok {
-			return []c19Tok{crl(wd(e), blockTok("cdp_config", []c19Tok{line("crl_cdp_strict", s)})), blockTok("ocsp_config", []c19Tok{line("ocsp_aia_strict", s)})}
+			return []c19Tok{crl(wd(e), c19BlockTok("cdp_config", []c19Tok{c19Line("crl_cdp_strict", s)})), c19BlockTok("ocsp_config", []c19Tok{c19Line("ocsp_aia_strict", s)})}
 		})
 	}
 	for _, s := range c19BadBools {
 		s := s
 		add("bool:invalid-cdp", "reject", "invalid-value option=crl_cdp_strict", func(e *c19Env) []c19Tok {
-			return []c19Tok{crl(wd(e), blockTok("cdp_config", []c19Tok{line("crl_cdp_strict", s)}))}
+			return []c19Tok{crl(wd(e), c19BlockTok("cdp_config", []c19Tok{c19Line("crl_cdp_strict", s)}))}
 		})
 		add("bool:invalid-ocsp", "reject", "invalid-value option=ocsp_aia_strict", func(e *c19Env) []c19Tok {
-			return []c19Tok{crl(wd(e)), blockTok("ocsp_config", []c19Tok{line("ocsp_aia_strict", s)})}
+			return []c19Tok{crl(wd(e)), c19BlockTok("ocsp_config", []c19Tok{c19Line("ocsp_aia_strict", s)})}
 		})
 	}
 	// shapes whose meaning is defined by the dispenser (model/implementation agreement only; no oracle expectation)
 	add("extra-arg:mode", "", "", func(e *c19Env) []c19Tok {
 		return []c19Tok{{Key: "mode", Args: []string{"crl_only", "disabled"}}, crl(wd(e))}
 	})
-	add("same-line:two-options", "", "", func(e *c19Env) []c19Tok {
+	add("same-c19Line:two-options", "", "", func(e *c19Env) []c19Tok {
 		return []c19Tok{crl(c19Tok{Key: "work_dir", Args: []string{e.WorkDir, "storage_type", "memory"}})}
 	})
-	add("same-line:option-then-block", "", "", func(e *c19Env) []c19Tok {
-		return []c19Tok{crl(c19Tok{Key: "work_dir", Args: []string{e.WorkDir, "cdp_config"}, Block: &[]c19Tok{line("crl_cdp_strict", "true")}})}
+	add("same-c19Line:option-then-block", "", "", func(e *c19Env) []c19Tok {
+		return []c19Tok{crl(c19Tok{Key: "work_dir", Args: []string{e.WorkDir, "cdp_config"}, Block: &[]c19Tok{c19Line("crl_cdp_strict", "true")}})}
 	})
-	add("same-line:url-url", "", "", func(e *c19Env) []c19Tok {
+	add("same-c19Line:url-url", "", "", func(e *c19Env) []c19Tok {
 		return []c19Tok{{Key: "mode", Args: []string{"ocsp_only"}}, crl(c19Tok{Key: "crl_url", Args: []string{"http://a/1", "crl_url", "http://a/2"}})}
 	})
 	add("block-key-with-arg", "", "", func(e *c19Env) []c19Tok {
@@ -641,40 +640,40 @@ func c19TreeShapes(fx *c19Fixture) []c19Case {
 	add("cdp-key-without-block", "", "", func(e *c19Env) []c19Tok { return []c19Tok{crl(wd(e), c19Tok{Key: "cdp_config"})} })
 	// duplicates: later scalar wins, lists append in order, a repeated block replaces the earlier one
 	add("dup:mode", "", "", func(e *c19Env) []c19Tok {
-		return []c19Tok{line("mode", "disabled"), crl(wd(e)), line("mode", "crl_only")}
+		return []c19Tok{c19Line("mode", "disabled"), crl(wd(e)), c19Line("mode", "crl_only")}
 	})
 	add("dup:scalars", "", "", func(e *c19Env) []c19Tok {
-		return []c19Tok{crl(line("work_dir", e.WorkDir+"/nope"), line("storage_type", "memory"), line("update_interval", "1h"), wd(e),
-			line("storage_type", "disk"), line("update_interval", "2h"), line("signature_validation_mode", "none"), line("signature_validation_mode", "verify_log"))}
+		return []c19Tok{crl(c19Line("work_dir", e.WorkDir+"/nope"), c19Line("storage_type", "memory"), c19Line("update_interval", "1h"), wd(e),
+			c19Line("storage_type", "disk"), c19Line("update_interval", "2h"), c19Line("signature_validation_mode", "none"), c19Line("signature_validation_mode", "verify_log"))}
 	})
 	add("dup:scalar-invalid-then-valid", "", "", func(e *c19Env) []c19Tok {
-		return []c19Tok{crl(wd(e), line("storage_type", "bogus"), line("storage_type", "memory"))}
+		return []c19Tok{crl(wd(e), c19Line("storage_type", "bogus"), c19Line("storage_type", "memory"))}
 	})
 	add("dup:lists-interleaved", "", "", func(e *c19Env) []c19Tok {
-		return []c19Tok{line("mode", "ocsp_only"), crl(line("crl_url", "http://h/1"), line("crl_file", "/f/1"), line("crl_url", "http://h/2"),
-			line("trusted_signature_cert_file", fx.CertFiles[0]), line("crl_file", "/f/2"), line("crl_url", "http://h/3"),
-			line("trusted_signature_cert_file", fx.CertFiles[1]))}
+		return []c19Tok{c19Line("mode", "ocsp_only"), crl(c19Line("crl_url", "http://h/1"), c19Line("crl_file", "/f/1"), c19Line("crl_url", "http://h/2"),
+			c19Line("trusted_signature_cert_file", fx.CertFiles[0]), c19Line("crl_file", "/f/2"), c19Line("crl_url", "http://h/3"),
+			c19Line("trusted_signature_cert_file", fx.CertFiles[1]))}
 	})
 	add("dup:crl-block-replaces", "", "", func(e *c19Env) []c19Tok {
-		return []c19Tok{crl(wd(e), line("storage_type", "memory")), crl(line("update_interval", "1h"))}
+		return []c19Tok{crl(wd(e), c19Line("storage_type", "memory")), crl(c19Line("update_interval", "1h"))}
 	})
 	add("dup:crl-block-replaces-2", "", "", func(e *c19Env) []c19Tok {
-		return []c19Tok{crl(line("storage_type", "memory"), line("crl_url", "http://h/1")), crl(wd(e))}
+		return []c19Tok{crl(c19Line("storage_type", "memory"), c19Line("crl_url", "http://h/1")), crl(wd(e))}
 	})
 	add("dup:cdp-block-replaces", "", "", func(e *c19Env) []c19Tok {
-		return []c19Tok{crl(wd(e), blockTok("cdp_config", []c19Tok{line("crl_cdp_strict", "true"), line("crl_fetch_mode", "fetch_background")}),
-			blockTok("cdp_config", []c19Tok{line("crl_fetch_mode", "fetch_actively")}))}
+		return []c19Tok{crl(wd(e), c19BlockTok("cdp_config", []c19Tok{c19Line("crl_cdp_strict", "true"), c19Line("crl_fetch_mode", "fetch_background")}),
+			c19BlockTok("cdp_config", []c19Tok{c19Line("crl_fetch_mode", "fetch_actively")}))}
 	})
 	add("dup:ocsp-block-replaces", "", "", func(e *c19Env) []c19Tok {
-		return []c19Tok{crl(wd(e)), blockTok("ocsp_config", []c19Tok{line("ocsp_aia_strict", "true"), line("default_cache_duration", "5m")}),
-			blockTok("ocsp_config", []c19Tok{line("trusted_responder_cert_file", fx.CertFiles[0])})}
+		return []c19Tok{crl(wd(e)), c19BlockTok("ocsp_config", []c19Tok{c19Line("ocsp_aia_strict", "true"), c19Line("default_cache_duration", "5m")}),
+			c19BlockTok("ocsp_config", []c19Tok{c19Line("trusted_responder_cert_file", fx.CertFiles[0])})}
 	})
 	add("dup:bool", "", "", func(e *c19Env) []c19Tok {
-		return []c19Tok{crl(wd(e), blockTok("cdp_config", []c19Tok{line("crl_cdp_strict", "true"), line("crl_cdp_strict", "0")})),
-			blockTok("ocsp_config", []c19Tok{line("ocsp_aia_strict", "F"), line("ocsp_aia_strict", "T")})}
+		return []c19Tok{crl(wd(e), c19BlockTok("cdp_config", []c19Tok{c19Line("crl_cdp_strict", "true"), c19Line("crl_cdp_strict", "0")})),
+			c19BlockTok("ocsp_config", []c19Tok{c19Line("ocsp_aia_strict", "F"), c19Line("ocsp_aia_strict", "T")})}
 	})
 	add("quoted-values", "", "", func(e *c19Env) []c19Tok {
-		return []c19Tok{line("mode", "ocsp_only"), crl(line("work_dir", "/no such/dir with spaces"), line("crl_url", "http://h/a b"), line("crl_file", "it's"))}
+		return []c19Tok{c19Line("mode", "ocsp_only"), crl(c19Line("work_dir", "/no such/dir with spaces"), c19Line("crl_url", "http://h/a b"), c19Line("crl_file", "it's"))}
 	})
 	add("empty-top", "", "", func(e *c19Env) []c19Tok { return nil })
 	return out
@@ -687,7 +686,7 @@ func c19JSONShapes(fx *c19Fixture) []c19Case {
 		e := fx.newEnv()
 		out = append(out, c19Case{Name: "json:" + name, JSON: f(e), Env: e, Expect: expect, Why: why})
 	}
-	q := func(s string) string { return string(mustJSON(s)) }
+	q := func(s string) string { return string(c19MustJSON(s)) }
 	for _, k := range []string{"modes", "crl", "Mode2", "work_dir", "crl_cdp_strict"} {
 		k := k
 		add("unknown-key:top", "reject", "unknown-key level=top", func(e *c19Env) string {
@@ -739,17 +738,17 @@ func c19JSONShapes(fx *c19Fixture) []c19Case {
 // c19RealCRLMatrix: configurations whose crl_files / crl_urls point at real CRLs.
 func c19RealCRLMatrix(fx *c19Fixture) []c19Case {
 	var out []c19Case
-	for _, mode := range []*string{nil, sp("prefer_crl"), sp("crl_only"), sp("ocsp_only"), sp("disabled")} {
-		for _, sig := range []*string{nil, sp("none"), sp("verify_log"), sp("verify")} {
-			for _, st := range []*string{nil, sp("memory"), sp("disk")} {
-				for _, fm := range []*string{nil, sp("fetch_actively"), sp("fetch_background")} {
+	for _, mode := range []*string{nil, c19Sp("prefer_crl"), c19Sp("crl_only"), c19Sp("ocsp_only"), c19Sp("disabled")} {
+		for _, sig := range []*string{nil, c19Sp("none"), c19Sp("verify_log"), c19Sp("verify")} {
+			for _, st := range []*string{nil, c19Sp("memory"), c19Sp("disk")} {
+				for _, fm := range []*string{nil, c19Sp("fetch_actively"), c19Sp("fetch_background")} {
 					for src := 0; src < 4; src++ { // 0 file, 1 url, 2 file+url, 3 two files + two urls (one PEM)
 						for _, trusted := range []bool{true, false} {
 							e := fx.newEnv()
 							c := c19Base(e)
 							c.Mode, c.Crl.Sig, c.Crl.Storage = mode, sig, st
 							if fm != nil {
-								c.Crl.Cdp = &aCdp{Fetch: fm}
+								c.Crl.Cdp = &c19ACdp{Fetch: fm}
 							}
 							switch src {
 							case 0:
@@ -805,9 +804,9 @@ func c19Run(fx *c19Fixture, cs c19Case) (res c19Result) {
 	case cs.Cfg != nil:
 		ts := cs.Cfg.toks(cs.Spell)
 		if cs.Shuf != 0 {
-			ts = shuffleToks(ts, rand.New(rand.NewSource(cs.Shuf)))
+			ts = c19ShuffleToks(ts, rand.New(rand.NewSource(cs.Shuf)))
 		}
-		res.CaddyText = caddyText(ts)
+		res.CaddyText = c19CaddyText(ts)
 		res.JSONText = cs.Cfg.json()
 		cf = fx.loadCaddyfile(e, ts, res.CaddyText)
 		js = fx.loadJSON(e, res.JSONText)
@@ -817,7 +816,7 @@ func c19Run(fx *c19Fixture, cs c19Case) (res c19Result) {
 		js = fx.loadJSON(e, res.JSONText)
 		res.Nontrivial = true
 	default:
-		res.CaddyText = caddyText(cs.Toks)
+		res.CaddyText = c19CaddyText(cs.Toks)
 		cf = fx.loadCaddyfile(e, cs.Toks, res.CaddyText)
 		res.Nontrivial = true
 	}
@@ -843,7 +842,7 @@ func c19Run(fx *c19Fixture, cs c19Case) (res c19Result) {
 			if strings.Contains(l.Err, "non-positive interval") {
 				what = "update_interval-nonpositive"
 			}
-			viol("load-panics "+what+" syntax="+l.Syntax, "loading the configuration panicked instead of returning an error: "+l.Err)
+			viol("load-panics "+what, "loading the configuration ("+l.Syntax+") panicked instead of returning an error: "+l.Err)
 		}
 	}
 	if cs.Cfg != nil {
@@ -852,20 +851,20 @@ func c19Run(fx *c19Fixture, cs c19Case) (res c19Result) {
 			viol("caddyfile-json-differ outcome", fmt.Sprintf("caddyfile: %s (%s) / json: %s (%s)", cf.Obs, cf.Err, js.Obs, js.Err))
 		} else if cf.Class == "ok" {
 			if a, b := cf.Eff.masked().String(), js.Eff.masked().String(); a != b {
-				viol("caddyfile-json-differ "+diffField(cf.Eff.masked(), js.Eff.masked()), "caddyfile: "+a+" / json: "+b)
+				viol("caddyfile-json-differ "+c19DiffField(cf.Eff.masked(), js.Eff.masked()), "caddyfile: "+a+" / json: "+b)
 			}
 		}
 		// (2) documented semantics: defaults, values, rejection of invalid values, valid combinations provision
-		want, invalid, lenient := fx.documented(cs.Cfg, e)
+		want, invalid := fx.documented(cs.Cfg, e)
 		for _, l := range []*c19Load{cf, js} {
 			switch {
 			case invalid != "" && l.Class == "ok":
 				viol("invalid-value-accepted "+invalid+" syntax="+l.Syntax, "expected rejection ("+invalid+"), got "+l.Obs)
-			case invalid == "" && l.Class == "error" && !lenient:
+			case invalid == "" && l.Class == "error":
 				viol("valid-config-rejected syntax="+l.Syntax, "every value is valid and referenced files exist, but loading failed: "+l.Err)
 			case invalid == "" && l.Class == "ok":
 				if a, b := l.Eff.masked().String(), want.masked().String(); a != b {
-					viol("option-not-effective "+diffField(l.Eff.masked(), want.masked())+" syntax="+l.Syntax, "got "+a+" / documented "+b)
+					viol("option-not-effective "+c19DiffField(l.Eff.masked(), want.masked())+" syntax="+l.Syntax, "got "+a+" / documented "+b)
 				}
 			}
 		}
@@ -877,7 +876,8 @@ func c19Run(fx *c19Fixture, cs c19Case) (res c19Result) {
 		switch cs.Expect {
 		case "reject":
 			if l.Class == "ok" {
-				viol(cs.Why+"-accepted syntax="+l.Syntax, "expected rejection, got "+l.Obs)
+				kind, attrs, _ := strings.Cut(cs.Why, " ")
+				viol(strings.TrimSpace(kind+"-accepted "+attrs)+" syntax="+l.Syntax, "expected rejection, got "+l.Obs)
 			}
 		case "accept":
 			if l.Class != "ok" {
@@ -895,28 +895,28 @@ func c19Run(fx *c19Fixture, cs c19Case) (res c19Result) {
 
 // ---- effective configuration -----------------------------------------------------------------
 
-type effCDP struct {
+type c19EffCDP struct {
 	Fetch  string
 	Strict bool
 }
-type effCRL struct {
+type c19EffCRL struct {
 	WorkDir, Storage, Sig string
 	IntervalNs            int64
 	Urls, Files, Signers  []string
-	CDP                   *effCDP
+	CDP                   *c19EffCDP
 }
-type effOCSP struct {
+type c19EffOCSP struct {
 	CacheNs    int64
 	Responders []string
 	Strict     bool
 }
-type effCfg struct {
+type c19EffCfg struct {
 	Mode string
-	CRL  *effCRL
-	OCSP *effOCSP
+	CRL  *c19EffCRL
+	OCSP *c19EffOCSP
 }
 
-func hexList(l []string) string {
+func c19HexList(l []string) string {
 	h := make([]string, len(l))
 	for i, s := range l {
 		h[i] = hexs([]byte(s))
@@ -924,7 +924,7 @@ func hexList(l []string) string {
 	return "[" + strings.Join(h, ",") + "]"
 }
 
-func (e effCfg) String() string {
+func (e c19EffCfg) String() string {
 	crl, ocsp := "nil", "nil"
 	if c := e.CRL; c != nil {
 		cdp := "nil"
@@ -932,25 +932,27 @@ func (e effCfg) String() string {
 			cdp = fmt.Sprintf("{%s,%v}", c.CDP.Fetch, c.CDP.Strict)
 		}
 		crl = fmt.Sprintf("{wd=%s st=%s iv=%d sg=%s urls=%s files=%s sgn=%s cdp=%s}", hexs([]byte(c.WorkDir)), c.Storage, c.IntervalNs, c.Sig,
-			hexList(c.Urls), hexList(c.Files), hexList(c.Signers), cdp)
+			c19HexList(c.Urls), c19HexList(c.Files), c19HexList(c.Signers), cdp)
 	}
 	if o := e.OCSP; o != nil {
-		ocsp = fmt.Sprintf("{cd=%d rs=%s as=%v}", o.CacheNs, hexList(o.Responders), o.Strict)
+		ocsp = fmt.Sprintf("{cd=%d rs=%s as=%v}", o.CacheNs, c19HexList(o.Responders), o.Strict)
 	}
 	return "ok mode=" + e.Mode + " crl=" + crl + " ocsp=" + ocsp
 }
 
-func crlEnabledMode(m string) bool { return m == "prefer_ocsp" || m == "prefer_crl" || m == "crl_only" }
+func c19CrlEnabledMode(m string) bool {
+	return m == "prefer_ocsp" || m == "prefer_crl" || m == "crl_only"
+}
 
 // masked: the CRL part is compared only when the mode enables CRL checking (it is never consulted otherwise).
-func (e effCfg) masked() effCfg {
-	if !crlEnabledMode(e.Mode) {
+func (e c19EffCfg) masked() c19EffCfg {
+	if !c19CrlEnabledMode(e.Mode) {
 		e.CRL = nil
 	}
 	return e
 }
 
-func diffField(a, b effCfg) string {
+func c19DiffField(a, b c19EffCfg) string {
 	switch {
 	case a.Mode != b.Mode:
 		return "field=mode"
@@ -970,11 +972,11 @@ func diffField(a, b effCfg) string {
 			return "field=update_interval"
 		case x.Sig != y.Sig:
 			return "field=signature_validation_mode"
-		case hexList(x.Urls) != hexList(y.Urls):
+		case c19HexList(x.Urls) != c19HexList(y.Urls):
 			return "field=crl_urls"
-		case hexList(x.Files) != hexList(y.Files):
+		case c19HexList(x.Files) != c19HexList(y.Files):
 			return "field=crl_files"
-		case hexList(x.Signers) != hexList(y.Signers):
+		case c19HexList(x.Signers) != c19HexList(y.Signers):
 			return "field=trusted_signature_certs_files"
 		case (x.CDP == nil) != (y.CDP == nil):
 			return "field=cdp_config"
@@ -989,7 +991,7 @@ func diffField(a, b effCfg) string {
 		switch {
 		case x.CacheNs != y.CacheNs:
 			return "field=default_cache_duration"
-		case hexList(x.Responders) != hexList(y.Responders):
+		case c19HexList(x.Responders) != c19HexList(y.Responders):
 			return "field=trusted_responder_certs_files"
 		case x.Strict != y.Strict:
 			return "field=ocsp_aia_strict"
@@ -998,7 +1000,7 @@ func diffField(a, b effCfg) string {
 	return "field=?"
 }
 
-func inList(s string, l []string) bool {
+func c19InList(s string, l []string) bool {
 	for _, x := range l {
 		if x == s {
 			return true
@@ -1006,11 +1008,3 @@ func inList(s string, l []string) bool {
 	}
 	return false
 }
-
-func sortedCopy(l []string) []string {
-	o := append([]string{}, l...)
-	sort.Strings(o)
-	return o
-}
-
-var _ = big.NewInt
